@@ -16,7 +16,11 @@ EXPLANATION = (
     "count_leaves and the walk use the same leaf predicate (the arrays sized by one are indexed by the "
     "other); (4) schema_ensure_capacity grows all four parallel arrays to the same new capacity and "
     "dominates every store at num_elements/num_leaves in the builder; (5) element accessors return the "
-    "field of the same name; find_column scans the leaves by name. Decides these clauses, not leaf "
+    "field of the same name; find_column scans the leaves by name; (6) element stores into a "
+    "carquet_schema's per-leaf arrays happen only in the builder, the reader fills them through the "
+    "recursive walk, which every successful build_schema runs (compute_levels cannot be bypassed); (7) a "
+    "byte offset into a typed array is element-scaled whenever the length is (growth code does not use an "
+    "element count as a byte count). Decides these clauses, not leaf "
     "order and counts for arbitrary trees (they follow from (1) only for well-formed child counts).")
 
 FR = "src/reader/file_reader.c"
@@ -44,6 +48,10 @@ def run(ctx):
     ctx.clause("C17.5 accessors and name lookup")
     ctx.clause("C17.6 the reader's leaf arrays are filled only by the recursive walk, which every successful build_schema runs")
     _only_the_walk(ctx)
+    ctx.clause("C17.7 byte offsets into the schema's typed arrays are element-scaled (no element count used as byte count)")
+    from ..rules import units
+    nu = units.check(ctx, P.lib_functions())
+    ctx.count("byte_offsets_into_typed_arrays", nu)
     tr = P.fn("traverse_schema_recursive", FR)
     enumv = P.enum("carquet_field_repetition")
     for nm, v in (("CARQUET_REPETITION_REQUIRED", REQ), ("CARQUET_REPETITION_OPTIONAL", OPT),
@@ -382,3 +390,23 @@ def _only_the_walk(ctx):
     ctx.ob("R6.must-pass", "walk-stores|%s:traverse_schema_recursive" % FR, P.where(tr.body),
            "the walk stores the definition level, the repetition level and the element index of each leaf",
            len(names) >= 3, str(names))
+
+
+def leaf_predicate_rule(ctx, rule="R5.siblings"):
+    """count_leaves sizes the per-leaf arrays, the walk indexes them: both must decide 'leaf' by the
+    same condition, or the walk writes past the arrays (shared with C04)."""
+    P = ctx.P
+    cnt = P.fn("count_leaves", FR)
+    tr = P.fn("traverse_schema_recursive", FR)
+    c1 = [n for n in cnt.body.walk() if n.k == "IfStmt"]
+    c2 = [n for n in tr.body.walk() if n.k == "IfStmt" and any(
+        is_assign(a) and a.c[0].strip().k == "ArraySubscriptExpr" and
+        a.c[0].strip().c[0].strip_casts().k == "MemberExpr" and a.c[0].strip().c[0].strip_casts().name == "leaf_indices"
+        for a in [y for y in n.c if y is not None][1].walk())]
+    if not c1 or not c2:
+        raise AnalysisBroken("leaf predicate of count_leaves / traverse_schema_recursive not found")
+    t1 = _strip_base(Canon(cnt)([x for x in c1[0].c if x is not None][0]))
+    t2 = _strip_base(Canon(tr)([x for x in c2[0].c if x is not None][0]))
+    ctx.ob(rule, "leaf-predicate-extent|%s:count_leaves/traverse" % FR, P.where(c2[0]),
+           "the arrays allocated for count_leaves() leaves are filled by a walk that decides 'leaf' by the same predicate",
+           t1 == t2, "%s / %s" % (show(t1), show(t2)))
